@@ -84,13 +84,21 @@ impl HasParent<&StringName> for Class {
     fn has_parent(&self, other: &StringName, ctx: &Context, pos: Position) -> TypeResult<bool> {
         if self.name == *other || other.name.as_str() == ANY {
             return Ok(true);
-        } else if (self.name.name == TUPLE && (other.name == TUPLE || other.name == COLLECTION))
+        } else if (self.name.name == TUPLE && other.name == COLLECTION)
             || (self.name.name == *other.name && self.name.generics.len() == other.generics.len())
         {
             // Contender! check generics
-            // Tuple check is necessary evil, no way to specify variable generics for tuples
+            // Tuple check is necessary evil, no way to specify variable generics for tuples:
+            // two tuples have the same number of elements and are compared element by element,
+            // a tuple is a collection of T if every one of its elements is a T
+            let element_of: Vec<&Name> = if self.name.name == TUPLE && other.name == COLLECTION {
+                other.generics.iter().cycle().take(self.name.generics.len()).collect()
+            } else {
+                other.generics.iter().collect()
+            };
+
             let mut all_generic_super = true;
-            for (s_name, o_name) in self.name.generics.iter().zip(&other.generics) {
+            for (s_name, o_name) in self.name.generics.iter().zip(element_of) {
                 for s_name in &s_name.names {
                     all_generic_super &= ctx.class(s_name, pos)?.has_parent(o_name, ctx, pos)?;
                 }
